@@ -512,6 +512,25 @@ def units(ctx):
             if ok:
                 ctx.fail(cid, cn + '.exp', 'no-raise', dict(entry=cn + '.exp', what='length', N=N, len=L, form=form),
                          '%d twists with a %s of %d joint values returned %s' % (N, form, L, type(r).__name__ + ('[%d]' % len(r.data) if hasattr(r, 'data') else '')))
+        # one joint value per twist (rotational twists only), in degrees and in radians: the same motions
+        rot = [v for v in vals if abs(v[-1]) > 0 or (len(v) == 6 and np.any(v[3:]))]
+        for N, form in itertools.product((2, 3), ('list', 'tuple', '1d')):
+            cid = 'C15/thetavec-units/%s/N=%d/%s' % (cn, N, form)
+            if not ctx.want(cid):
+                continue
+            ctx.case(cid, key=cid)
+            thd = [20.0, 45.0, -80.0][:N]
+            mkarg = lambda t_: t_ if form == 'list' else (tuple(t_) if form == 'tuple' else np.array(t_))
+            import io, contextlib
+            with contextlib.redirect_stdout(io.StringIO()):
+                ok, r = call(lambda: (C_([v.copy() for v in rot[:N]]).exp(mkarg(thd), 'deg'), C_([v.copy() for v in rot[:N]]).exp(mkarg([math.radians(t_) for t_ in thd]), 'rad')))
+            P = dict(entry=cn + '.exp', what='deg-vs-rad', N=N, form=form)
+            if not ok:
+                ctx.note('multi_twist_theta_vector_refused', '%s N=%d %s -> %s' % (cn, N, form, type(r).__name__))
+                continue
+            a_, b_ = [np.asarray(d, dtype=float) for d in r[0].data], [np.asarray(d, dtype=float) for d in r[1].data]
+            if len(a_) != N or len(b_) != N or any(np.abs(x_ - y_).max() > 1e-9 * max(1.0, float(np.abs(y_).max())) for x_, y_ in zip(a_, b_)):
+                ctx.fail(cid, cn + '.exp', 'mismatch', P, '%d twists with one joint value each: degrees and the same angles in radians give different motions' % N)
     for site, f in angle_entries():
         for bad in ('grad', 'degrees', 'DEG', ''):
             cid = 'C15/badunit/%s/%s' % (site, bad or 'empty')
